@@ -14,7 +14,7 @@ id, m, line = sys.argv[1], sys.argv[2], sys.argv[3]
 meta = json.load(open(f"/tmp/{id}_out/{m}/meta.json"))
 meta["verified_by_coordinator"] = {"worktree": f"/tmp/wt_{id}", "ran": "demo.py on clean tree (exit 0), git apply patch.diff, demo.py (exit 1), full pytest suite with the patch: same FAILED/ERROR set as the unpatched baseline, git checkout -- .", "result": line}
 meta["breaks_property"] = id[:3]
-meta["generation"] = {"b": "second", "c": "third", "d": "fourth", "e": "fifth", "f": "sixth"}.get(id[3:4], "first")
+meta["generation"] = {"b": "second", "c": "third", "d": "fourth", "e": "fifth", "f": "sixth", "g": "seventh"}.get(id[3:4], "first")
 json.dump(meta, open(f"/verif/seeded/{id}_{m}/meta.json", "w"), indent=1)
 PY
   res=$(/venv/bin/python /verif/harness/seedtest_iso.py $d/patch.diff $prop 2>&1 | grep "^===")
